@@ -20,8 +20,10 @@ use vkit::{fp128, par, Report, Stats, Tier, J};
 
 const SELF: NodeId = 0;
 
-fn addr(node: NodeId, variant: u8) -> SocketAddr {
-    SocketAddr::from(([10, 0, variant, node], 9000 + variant as u16))
+/// Addresses are shared between nodes: node 0 (self) lives at address 0, peers at address
+/// 1 or 2, and a peer may take the address another peer held in the previous snapshot.
+fn addr(_node: NodeId, variant: u8) -> SocketAddr {
+    SocketAddr::from(([10, 0, 0, variant], 9000))
 }
 
 /// A snapshot of the peers (self is always added): node id -> address variant.
@@ -29,14 +31,17 @@ type Peers = BTreeMap<NodeId, u8>;
 
 fn snapshots() -> Vec<Peers> {
     let mut v = Vec::new();
-    for one in [None, Some(0u8), Some(1u8)] {
-        for two in [false, true] {
+    for one in [None, Some(1u8), Some(2u8)] {
+        for two in [None, Some(1u8), Some(2u8)] {
+            if one.is_some() && one == two {
+                continue; // two live nodes never share an address within one snapshot
+            }
             let mut p = Peers::new();
             if let Some(a) = one {
                 p.insert(1, a);
             }
-            if two {
-                p.insert(2, 0);
+            if let Some(a) = two {
+                p.insert(2, a);
             }
             v.push(p);
         }
@@ -283,7 +288,7 @@ fn judge(snaps: &[Peers], seq: &[usize], events: &[Ev], out: &Outcome, st: &mut 
 pub fn run(tier: Tier) -> i32 {
     let mut report = Report::new("C16", tier, "model_checking");
     let snaps = snapshots();
-    let max_len = tier.pick(3, 4);
+    let max_len = tier.pick(4, 5);
     let mut seqs: Vec<Vec<usize>> = Vec::new();
     let mut cur: Vec<Vec<usize>> = vec![vec![]];
     for _ in 0..max_len {
@@ -332,7 +337,7 @@ pub fn run(tier: Tier) -> i32 {
     report.cover("distinct_nontrivial", states);
     report.cover(
         "rule",
-        "every snapshot sequence up to max_len over 6 snapshots (peers {1,2}, two addresses for peer 1) x every burst \
+        "every snapshot sequence up to max_len over 7 snapshots (peers {1,2}, each absent or at one of two addresses they may hand over to each other, never sharing one) x every burst \
          pattern x every subscription point x every subset of read positions, executed against the real watcher task; \
          states = distinct (sequence, observed outcome) pairs",
     );
@@ -358,7 +363,7 @@ pub fn replay(case: &J) -> i32 {
                 let t = item.as_str().unwrap_or("");
                 if let Some((n, a)) = t.split_once('@') {
                     let n: NodeId = n.parse().unwrap_or(1);
-                    let variant = if a.contains(".1.") && a.ends_with("9001") { 1 } else { 0 };
+                    let variant = if a.starts_with("10.0.0.2:") { 2 } else { 1 };
                     peers.insert(n, variant);
                 }
             }
